@@ -13,9 +13,7 @@ echo "== demo WITHOUT patch:"; env $ENVV /venv/bin/python $SD/demo.py > $SD/demo
 git -C $WT apply $SD/patch.diff || { echo "patch does not apply"; exit 3; }
 echo "== patch: $(git -C $WT diff --stat | tail -1)"
 echo "== demo WITH patch:"; env $ENVV /venv/bin/python $SD/demo.py > $SD/demo_with.out 2>&1; echo "exit $?"; tail -3 $SD/demo_with.out
-echo "== test suite WITH patch:"
-env $ENVV /venv/bin/python -m pytest -q -p no:cacheprovider --timeout=900 tests 2>&1 | tail -3
-git -C $WT checkout -q -- src
+(env $ENVV /venv/bin/python -m pytest -q -p no:cacheprovider --timeout=900 tests > $SD/pytest_with.out 2>&1; git -C $WT checkout -q -- src) &
 mkdir -p $DST && cp $SD/patch.diff $SD/demo.py $DST/ && cp $SD/notes.md $DST/ 2>/dev/null
 echo "== our checks against the patch (applied to /repo, then reverted):"
 git -C /repo apply $SD/patch.diff || { echo "patch does not apply to /repo"; exit 3; }
@@ -25,3 +23,5 @@ for C in $ID "$@"; do
 done
 git -C /repo checkout -- .
 git -C /repo status --short | head -3
+wait
+echo "== test suite WITH patch: $(tail -1 $SD/pytest_with.out)"; grep "^FAILED" $SD/pytest_with.out | head -5
